@@ -247,3 +247,100 @@ func Harness_C18_MetaAPI() {
 	vAssert("leave-announced-once", nLeave == 1 && nUnreg == 1 && nRegDel == 1)
 	vCover("meta-checked")
 }
+
+// kill procedures end exactly the targeted sessions, never the caller;
+// testaments are published or flushed exactly as requested
+func Harness_C18_KillAndTestaments() {
+	r := vNewRouter(&Config{RealmConfigs: []*RealmConfig{{URI: "realm1", AnonymousAuth: true, EnableMetaKill: true}}})
+	mk := func(id, role string) *vClient {
+		return vAttach(r, "realm1", wamp.Dict{"roles": vAllRoles, "authid": id}, 64)
+	}
+	caller := mk("admin", "")
+	s1 := mk("alice", "")
+	s2 := mk("alice", "")
+	s3 := mk("bob", "")
+	obs := mk("watcher", "")
+	vAssert("attached", caller != nil && s1 != nil && s2 != nil && s3 != nil && obs != nil)
+	rl := r.realms["realm1"]
+	obs.send(&wamp.Subscribe{Request: 1, Topic: "will.topic"})
+	obs.drain()
+	// s1 leaves two testaments, one of which it may flush again
+	s1.send(&wamp.Call{Request: 10, Procedure: wamp.MetaProcSessionAddTestament, Arguments: wamp.List{"will.topic", wamp.List{"destroyed-will"}, wamp.Dict{}}})
+	s1.send(&wamp.Call{Request: 11, Procedure: wamp.MetaProcSessionAddTestament, Arguments: wamp.List{"will.topic", wamp.List{"detached-will"}, wamp.Dict{}}, ArgumentsKw: wamp.Dict{"scope": "detached"}})
+	flush := vChoice("flush", 3) // none, destroyed, detached
+	if flush == 1 {
+		s1.send(&wamp.Call{Request: 12, Procedure: wamp.MetaProcSessionFlushTestaments})
+	} else if flush == 2 {
+		s1.send(&wamp.Call{Request: 12, Procedure: wamp.MetaProcSessionFlushTestaments, ArgumentsKw: wamp.Dict{"scope": "detached"}})
+	}
+	s1.drain()
+	var wantGone [3]bool
+	var count int64 = -1
+	switch vChoice("kill", 5) {
+	case 0:
+		res, er, _ := caller.metaCall(wamp.MetaProcSessionKill, wamp.List{vIDAs("kill", s1.id)}, wamp.Dict{"reason": "my.reason", "message": "bye"})
+		vAssert("kill-yields", res != nil && er == nil)
+		wantGone = [3]bool{true, false, false}
+	case 1:
+		res, _, _ := caller.metaCall(wamp.MetaProcSessionKillByAuthid, wamp.List{"alice"}, nil)
+		vAssert("kill-by-authid-yields", res != nil && len(res.Arguments) == 1)
+		if res != nil && len(res.Arguments) == 1 {
+			count, _ = wamp.AsInt64(res.Arguments[0])
+		}
+		wantGone = [3]bool{true, true, false}
+		vAssert("kill-count", count == 2)
+	case 2:
+		// the caller's own id / authid never kills the caller
+		_, er, _ := caller.metaCall(wamp.MetaProcSessionKill, wamp.List{caller.id}, nil)
+		vAssert("cannot-kill-self", er != nil && er.Error == wamp.ErrNoSuchSession)
+		res, _, _ := caller.metaCall(wamp.MetaProcSessionKillByAuthid, wamp.List{"admin"}, nil)
+		if res != nil && len(res.Arguments) == 1 {
+			count, _ = wamp.AsInt64(res.Arguments[0])
+		}
+		vAssert("self-excluded-from-authid-kill", count == 0)
+	case 3:
+		_, er, _ := caller.metaCall(wamp.MetaProcSessionKill, wamp.List{s1.id}, wamp.Dict{"reason": "not a uri!"})
+		vAssert("invalid-reason-refused", er != nil && er.Error == wamp.ErrInvalidURI)
+	case 4:
+		unknown := vValidID("unknown.session")
+		_, exists := rl.clients[unknown]
+		vAssume(!exists)
+		_, er, _ := caller.metaCall(wamp.MetaProcSessionKill, wamp.List{unknown}, nil)
+		vAssert("kill-unknown-session", er != nil && er.Error == wamp.ErrNoSuchSession)
+	}
+	vQuiesce()
+	vAssert("caller-never-killed", rl.clients[caller.id] != nil)
+	for i, c := range []*vClient{s1, s2, s3} {
+		_, still := rl.clients[c.id]
+		vAssert("exactly-the-targeted-sessions-end", still == !wantGone[i])
+		if wantGone[i] {
+			g, n := vFindMsg[*wamp.Goodbye](c.drain())
+			vAssert("killed-session-gets-goodbye", n == 1)
+			if i == 0 && n == 1 && count == -1 {
+				vAssert("goodbye-carries-reason", g.Reason == "my.reason" && g.Details["message"] == any("bye"))
+			}
+		}
+	}
+	// testaments of s1: published exactly once each when it was killed, minus what it flushed
+	wills := map[string]int{}
+	for _, m := range obs.drain() {
+		if e, ok := m.(*wamp.Event); ok && len(e.Arguments) == 1 {
+			if s, ok := e.Arguments[0].(string); ok {
+				wills[s]++
+			}
+		}
+	}
+	if wantGone[0] {
+		wantDestroyed, wantDetached := 1, 1
+		if flush == 1 {
+			wantDestroyed = 0
+		} else if flush == 2 {
+			wantDetached = 0
+		}
+		vAssert("testaments-published-or-flushed-as-requested", wills["destroyed-will"] == wantDestroyed && wills["detached-will"] == wantDetached)
+		vCover("testaments-at-kill")
+	} else {
+		vAssert("no-testament-while-alive", len(wills) == 0)
+	}
+	vCover("kill-checked")
+}
